@@ -136,7 +136,7 @@ func msgHash(i int) string { return refHash([]byte(fmt.Sprintf("message-%d", i))
 
 // listOutcomes copies the distinct outcome classes into the evidence (when few enough to read).
 func listOutcomes(run *ev.Run) {
-	if len(run.Distinct) > 300 {
+	if len(run.Distinct) > 800 {
 		return
 	}
 	var ks []string
